@@ -364,6 +364,11 @@ func objectDefineOwnProperty(obj *object, name string, descriptor property, thro
 		if !configurable {
 			return reject("property descriptor not configurable")
 		}
+		if descriptor.value == nil {
+			// Accessor => data without a "value" field: the value is undefined
+			// (8.12.9 step 9c), never the old getter/setter pair.
+			descriptor.value = Value{}
+		}
 	case isDataDescriptor && descriptor.isDataDescriptor():
 		// DataDescriptor <=> DataDescriptor
 		if !configurable {
